@@ -356,3 +356,72 @@ def _unmodified(res, fns):
                              "(e.g. records straddling --start/--end are clipped)" % up(n)[:60])
         if not [v for v in res.violations if "writers/%s/modified" % fn.name in v["role"]]:
             res.ok(fn, "%s prints the records exactly as returned by the range query" % fn.name)
+
+
+def ob_stream_siblings(ctx, res):
+    """C01-S1: iterator-backed sources keep the chromosome name while it does not change (fallible and infallible variants agree)"""
+    BP = "bigtools/src/bed/bedparser.rs"
+    a = ctx.ast.fn(BP, "next", impl="BedIteratorStream")
+    b = ctx.ast.fn(BP, "next", impl="BedInfallibleIteratorStream")
+    ta, tb = up(a.body), up(b.body)
+    # normalise the fallible variant: drop the error arm and the Ok() wrappers in patterns
+    na = ta.replace("(_,Err(e)) => return Some(Err(e.into())), ", "").replace("Ok(v)", "v")
+    if na != tb:
+        i = 0
+        while i < min(len(na), len(tb)) and na[i] == tb[i]:
+            i += 1
+        res.fail("streams/siblings", b, "BedIteratorStream::next and BedInfallibleIteratorStream::next differ beyond error handling near `%s` vs `%s`" % (na[max(0, i - 40):i + 40], tb[max(0, i - 40):i + 40]))
+        return
+    if "(_,Err(e)) => return Some(Err(e.into()))" not in ta:
+        res.fail("streams/error", a, "an error of the wrapped iterator must be passed on")
+        return
+    m = re.search(r"\(Some\((\w+)\),(\w+)\) => \{if \2\.0 == &\1\.0 \{Some\(\(\1\.0,\2\.1\)\)\} else \{Some\(\(\2\.0\.into\(\),\2\.1\)\)\}\}", tb)
+    if not m or "(None,v) => Some((v.0.into(),v.1))" not in tb or "self.curr.as_ref().map(|v| Ok((v.0.deref(),v.1.clone())))" not in tb:
+        res.fail("streams/form", b, "next must keep the stored chromosome name while the incoming one equals it, else take the new one, and yield (name, value) of the current item")
+        return
+    res.ok(a, "iterator sources: same chromosome -> stored name kept, new chromosome -> new name; value passed through; fallible/infallible variants identical modulo the error arm")
+
+
+def ob_zoom_count_siblings(ctx, res):
+    """C07-Z2: the two-pass zoom-size estimators of the bigWig and bigBed first pass agree; process_val is unconditional in every processor"""
+    WW, BW = "bigtools/src/bbi/bigwigwrite.rs", "bigtools/src/bbi/bigbedwrite.rs"
+    fa = ctx.ast.fn(WW, "do_process", impl="BigWigNoZoomsProcess")
+    fb = ctx.ast.fn(BW, "do_process", impl="BigBedNoZoomsProcess")
+    la = [n for n in walk_no_nested_fn(fa.body) if n.k == "for" and "zoom_counts" in up(n["iter"])]
+    lb = [n for n in walk_no_nested_fn(fb.body) if n.k == "for" and "zoom_counts" in up(n["iter"])]
+    if len(la) != 1 or len(lb) != 1:
+        res.fail("zoomCounts/sites", fa, "zoom count loops not found")
+        return
+    ta = up(la[0]).replace("current_val.start", "item_start").replace("current_val.end", "item_end")
+    tb = up(lb[0])
+    if ta != tb:
+        res.fail("zoomCounts/siblings", lb[0], "bigWig and bigBed first-pass zoom counters differ")
+    else:
+        res.ok(la[0], "first-pass zoom record counters identical for bigWig and bigBed")
+    from ..astq import cond_ancestors
+    for file, impls, callee in ((WW, ["BigWigNoZoomsProcess"], "process_val"), (BW, ["BigBedNoZoomsProcess"], "process_val"),
+                                (WW, ["BigWigZoomsProcess"], "process_val_zoom"), (BW, ["BigBedZoomsProcess"], "process_val_zoom")):
+        for impl in impls:
+            fn = ctx.ast.fn(file, "do_process", impl=impl)
+            cs = [c for c in walk_no_nested_fn(fn.body) if c.k == "call" and up(c["func"]) == callee]
+            rets = [n for n in walk_no_nested_fn(fn.body) if n.k == "return"]
+            if len(cs) != 1 or cond_ancestors(cs[0]) or rets:
+                res.fail("zoomCounts/%s/unconditional" % impl, fn, "%s::do_process must call %s unconditionally for every value" % (impl, callee))
+            else:
+                a = [up(strip(x)) for x in cs[0]["args"]]
+                res.ok(cs[0], "%s::do_process: %s(..) for every value" % (impl, callee))
+    # destroy(): the chromosome summary is returned as accumulated (only the empty-chromosome reset / total_items store)
+    for file, impl in ((WW, "BigWigFullProcess"), (WW, "BigWigNoZoomsProcess"), (BW, "BigBedFullProcess"), (BW, "BigBedNoZoomsProcess")):
+        fn = ctx.ast.fn(file, "destroy", impl=impl)
+        asg = [n for n in walk_no_nested_fn(fn.body) if n.k in ("assign",) or (n.k == "binary" and n["op"].endswith("=") and n["op"] not in ("==", "<=", ">=", "!="))]
+        allowed = 0
+        for n in asg:
+            l = up(strip(n["l"]))
+            if re.fullmatch(r"\w+\.(min_val|max_val)", l) and up(strip(n["r"])) == "0.0":
+                allowed += 1
+            elif re.fullmatch(r"\w+\.total_items", l) and up(strip(n["r"])) == "total_items":
+                allowed += 1
+            else:
+                res.fail("zoomCounts/%s/destroy" % impl, n, "%s::destroy alters the accumulated summary: `%s`" % (impl, up(n)))
+        if not [v for v in res.violations if impl + "/destroy" in v["role"]]:
+            res.ok(fn, "%s::destroy returns the accumulated summary (only the empty-chromosome reset / item count store)" % impl)
